@@ -18,7 +18,9 @@ fn compute_facts_hash(facts: &TypedFacts) -> u64 {
 
     for (key, value) in sorted_facts {
         key.hash(&mut hasher);
-        value.as_str().hash(&mut hasher);
+        // Hash the typed rendering: `as_str()` prints Integer(5), Float(5.0) as "5"
+        // and String("5") alike, which made differently typed fact sets share a key.
+        format!("{:?}", value).hash(&mut hasher);
     }
 
     hasher.finish()
